@@ -325,7 +325,7 @@ theorem TL_connfn (s : St) (k g : Nat) (f : FSpec) (first : Bool) (s' : St) (r :
   exact liveObj_gle hle (hM.2 o ho)
 
 
-set_option maxHeartbeats 1000000 in
+set_option maxHeartbeats 400000 in
 theorem TL_simple (s : St) (op : Op) (s' : St) (r : String) (hW : WF s) (hI : TL s)
     (h : stepSimple s op = some (s', r)) : TL s' := by
   cases op
